@@ -1269,9 +1269,9 @@ def guarded(name, fn):
     return run
 
 
-STREAMS = {"zerocol": (stream_zerocol, 100, 1500), "groups": (stream_groups, 600, 6000), "update": (stream_update, 900, 12000),
-           "fit": (stream_fit, 660, 9000), "path": (stream_path, 80, 1000),
-           "refit": (stream_refit, 200, 3000), "repr": (stream_repr, 40, 600), "corner": (stream_corner, 64, 960),
+STREAMS = {"zerocol": (stream_zerocol, 100, 1500), "groups": (stream_groups, 600, 6000), "update": (stream_update, 700, 12000),
+           "fit": (stream_fit, 500, 9000), "path": (stream_path, 80, 1000),
+           "refit": (stream_refit, 120, 3000), "repr": (stream_repr, 40, 600), "corner": (stream_corner, 64, 960),
            "routes": (stream_routes, 30, 450)}
 
 
